@@ -408,11 +408,31 @@ def make_case(seed, size='small', features=None, gens=None):
             "features": sorted(k for k, v in f.items() if v), "unreach_mode": g.unreach_mode, "travel_only": bool(f.get('travel_only'))}
 
 
+def _metric(case):
+    """triangle inequality for all matrices (durations and distances), no unreachable entries"""
+    for m in case["matrices"]:
+        if m.get("errorCodes"):
+            return False
+        for key in ("travelTimes", "distances"):
+            v = m[key]; n = int(round(len(v) ** 0.5))
+            for i in range(n):
+                for j in range(n):
+                    for k in range(n):
+                        if v[i * n + j] > v[i * n + k] + v[k * n + j]:
+                            return False
+    return True
+
+
 def derive_relations(case, solution, rnd):
-    """Relations consistent with the constraints: taken from a solution the solver returned for the same problem."""
+    """Relations consistent with the constraints, as the documentation requires of user relations: taken from a solution
+    the solver returned for the same problem.  Only tours without reload / break stops are used (dropping a reload from a
+    pinned sequence would make the relation inconsistent with capacity) and only problems with metric matrices (a pinned
+    subsequence of a feasible tour is then feasible as well)."""
+    if not _metric(case):
+        return None
     problem = copy.deepcopy(case["problem"])
     jobs = {j["id"]: j for j in problem["plan"]["jobs"]}
-    def simple(jid):  # E1203: strict/sequence need single place & <=1 window on all tasks
+    def simple(jid):  # E1203 (applied by the code to every relation type): single place and at most one window per task
         j = jobs.get(jid)
         if j is None: return True
         for k in ("pickups", "deliveries", "replacements", "services"):
@@ -420,41 +440,38 @@ def derive_relations(case, solution, rnd):
                 if len(t["places"]) > 1 or len(t["places"][0].get("times") or []) > 1:
                     return False
         return True
+    def ntasks(jid):
+        return sum(len(jobs[jid].get(kk, [])) for kk in ("pickups", "deliveries", "replacements", "services"))
     rels = []
     for t in solution.get("tours", []):
         acts = [a for s in t["stops"] for a in s["activities"]]
         ids = [a["jobId"] for a in acts]
+        if any(a["type"] in ("reload", "break", "recharge") for a in acts):
+            continue
         kind = rnd.choice(["any", "sequence", "strict", "none"])
         if kind == "none":
             continue
+        has_arrival = ids[-1] == "arrival"
+        inner = ids[1:-1] if has_arrival else ids[1:]
+        if not inner or not all(simple(x) for x in inner):
+            continue
         if kind == "any":
-            pick = sorted({i for i in ids if i in jobs and simple(i) and rnd.random() < 0.5})
-            # a job id must be listed once per task (E1207)
-            seq = [a["jobId"] for a in acts if a["jobId"] in pick]
+            pick = {i for i in set(inner) if rnd.random() < 0.5}
+            seq = [x for x in inner if x in pick]
             if seq:
                 rels.append({"type": "any", "jobs": seq, "vehicleId": t["vehicleId"], "shiftIndex": t["shiftIndex"]})
-            continue
-        # sequence / strict: a prefix, a suffix or an inner block of the tour, whole jobs only
-        inner = ids[1:-1] if ids and ids[-1] == "arrival" else ids[1:]
-        if not inner:
             continue
         mode = rnd.choice(["prefix", "suffix", "block"])
         k = rnd.randint(1, len(inner))
         if mode == "prefix":
             seq = ["departure"] + inner[:k]
-        elif mode == "suffix" and ids[-1] == "arrival":
+        elif mode == "suffix" and has_arrival:
             seq = inner[-k:] + ["arrival"]
         else:
             a = rnd.randrange(len(inner)); seq = inner[a:a + k]
         body = [x for x in seq if x not in ("departure", "arrival")]
-        # whole jobs only, simple jobs only, no reload/break ids unless defined (they are, since they appear)
-        ok = all(simple(x) for x in body)
-        for x in set(body):
-            if x in jobs:
-                need = sum(len(jobs[x].get(kk, [])) for kk in ("pickups", "deliveries", "replacements", "services"))
-                if body.count(x) != need:
-                    ok = False
-        if ok and body:
+        # whole jobs only (E1207)
+        if body and all(body.count(x) == ntasks(x) for x in set(body)):
             rels.append({"type": kind, "jobs": seq, "vehicleId": t["vehicleId"], "shiftIndex": t["shiftIndex"]})
     if not rels:
         return None
